@@ -1,9 +1,10 @@
 #!/bin/sh
 # Development aid: runs every archived seeded change against the quick check of its property (scratch worktree, /repo untouched).
 # Expectation: exit 1 (a reproduced violation) for every seed that still applies to /repo's HEAD.
+# usage: tools/seedsweep.sh [parallel jobs, default 1] [id pattern, default C]
 cd "$(dirname "$0")/.." || exit 9
-for D in seeded/C*/; do
-  ID=$(basename $D); PROP=$(python3 -c "import json,sys; print(json.load(open('$D/meta.json'))['property'])")
-  R=$(tools/seedtest_wt.sh $PWD/$D/patch.diff $PROP 2>&1 | grep -v WARN | head -2 | tr '\n' ' ' | cut -c1-160)
-  echo "$ID $PROP $R"
-done
+J="${1:-1}"; PAT="${2:-C}"
+ls -d seeded/${PAT}*/ | xargs -P "$J" -n 1 sh -c '
+  D=$0; ID=$(basename $D); PROP=$(python3 -c "import json,sys; print(json.load(open(\"$D/meta.json\"))[\"property\"])")
+  R=$(tools/seedtest_wt.sh $PWD/$D/patch.diff $PROP 2>&1 | grep -v WARN | head -2 | tr "\n" " " | cut -c1-160)
+  echo "$ID $PROP $R"'
